@@ -140,6 +140,12 @@ def run(pid, tier, replay=None):
     if pid == "C01":
         from checks import c10
         c10.legs(c, "C01", tier)        # producer 3: retain on a well-formed registry
+        # producer 1 on REAL types: every registry the type-expression programs build (one shared registry per program,
+        # the same roots in two more orders, every valued type alone) - incl. chains nested 70 / 100 deep
+        from checks import texprcommon as T
+        cases = T.corpus(c, thorough, thorough)
+        tr6 = T.observe(c, cases, 70, 1, limit=None)
+        T.validate(c, "C01", tr6)
         builder_leg(c, tier)            # producer 2: the runtime builder (producer 4, decode(encode(.)), rides on the traces above)
     c.cov["exhaustive"] = True
     c.cov["rule"] = ("design: all universes on 3 identities with <=2 ordered children (2197 graphs, alias spellings on edges, every definition kind incl. empty arrays, marker types, parameters with and without a type on composite / sequence / tuple definitions, raw-identifier paths) x all histories of 3 registrations%s; "
